@@ -666,6 +666,57 @@ theorem cluster_published_has_keyspace (perShard : Bool) (target : Nat) (evs : L
   obtain ⟨h1, h2, _, h4⟩ := cluster_run_invs perShard target evs
   exact cluster_published h1 h2 (h4 hov) F hF hr
 
+/-- **fanout_targets_every_known_node**. The worker's use-keyspace arm addresses `known_nodes.values()`
+(cluster/worker.rs:378-381): the target set of the fan-out is the list of ALL known nodes, taken when the request is
+handled. The model has no notion of tokens, rings or replicas: whether a node owns tokens (a coordinator-only node owns
+none and is absent from `locator.unique_nodes_in_global_ring()`) cannot restrict the set. Together with
+`cluster_published_has_keyspace` (which ranges over `n ∈ c.known`): after Ok every known node with a pool has
+acknowledged, token owner or not. -/
+theorem fanout_targets_every_known_node (c : Cluster K) (k : K) :
+    (cstep c (.useKs k)).fanouts.head?.map (·.nodes) = some c.known ∧
+    (cstep c (.useKs k)).fanouts.head?.map (·.resp) = some none ∧ (cstep c (.useKs k)).known = c.known := ⟨rfl, rfl, rfl⟩
+
+/-- The fan-out is answered only when EVERY node of its target set has answered: a request that reached only some
+of the known nodes stays unanswered (`join_all`). -/
+theorem fanout_waits_for_every_known_node (c : Cluster K) (fid : Nat) (F : Fanout K)
+    (hF : c.fanouts.find? (·.id = fid) = some F) (n : Nat) (hn : n ∈ F.nodes) (hun : c.nodeAnswer F n = none) :
+    cstep c (.fanoutFinish fid) = c := by
+  simp only [cstep, hF]
+  have : (F.nodes.all fun n => (c.nodeAnswer F n).isSome) = false := by
+    rw [List.all_eq_false]
+    exact ⟨n, hn, by simp [hun]⟩
+  simp [this]
+
+private def cevsTokenless : List (CEv Nat) :=
+  [.addNode false 1 false, .addNode false 1 false, .pool 0 .refill, .pool 0 (.opened 0 none none),
+   .pool 1 .refill, .pool 1 (.opened 0 none none), .useKs 5, .deliver 0 0, .pool 0 (.taskSubmit 0 0),
+   .pool 0 (.serve 0 .ack), .pool 0 (.taskFinish 0), .fanoutFinish 0]
+/-- Two known nodes (say node 1 owns no tokens): while node 1 has not answered, the call is not answered. -/
+example : let c := crun (Cluster.init false 1 : Cluster Nat) cevsTokenless
+    c.fanouts.map (·.resp) = [none] ∧ c.fanouts.map (·.nodes) = [[0, 1]] ∧ ((c.pools 1).net 0).serverKs = none := by decide
+private def cevsTokenless2 : List (CEv Nat) :=
+  cevsTokenless ++ [.deliver 0 1, .pool 1 (.taskSubmit 0 0), .pool 1 (.serve 0 .ack), .pool 1 (.taskFinish 0), .fanoutFinish 0]
+example : let c := crun (Cluster.init false 1 : Cluster Nat) cevsTokenless2
+    c.fanouts.map (·.resp) = [some .ok] ∧ ((c.pools 1).net 0).serverKs = some 5 := by decide
+
+/-- **working_connection_is_published**: the third hand-out path, `get_working_connections`
+(`Session::prepare`'s fallback, schema agreement, `iter_working_connections_per_node`), hands out exactly the
+published connections - never an excess one, never one whose keyspace is still being set. -/
+theorem working_connection_is_published (p : Pool K) (i : Nat) : i ∈ p.workingConnections ↔ i ∈ p.conns :=
+  mem_byShard p i
+
+/-- **working_connections_have_keyspace**: after an Ok fan-out (not overlapped), every connection
+`get_working_connections` returns on any known node - where a PREPARE, a re-prepare's sibling or a schema-agreement read
+is sent - is in the fan-out's keyspace (unless it is broken or the server still has an unanswered timed-out `USE` on it). -/
+theorem working_connections_have_keyspace (perShard : Bool) (target : Nat) (evs : List (CEv K)) :
+    let c := crun (Cluster.init perShard target : Cluster K) evs
+    c.overlap = false → ∀ F, c.fanouts.head? = some F → F.resp = some .ok →
+      ∀ n ∈ c.known, ∀ i ∈ (c.pools n).workingConnections, ((c.pools n).net i).broken = false →
+        ((c.pools n).net i).unclaimed = false → ((c.pools n).net i).serverKs = some F.ks := by
+  intro c hov F hF hr n hn i hi hb hu
+  exact (cluster_published_has_keyspace perShard target evs hov F hF hr n hn i
+    ((working_connection_is_published _ i).mp hi) hb hu).1
+
 /-- Under the same hypothesis (the NEWEST fan-out did not overlap an older one - the ghost is re-evaluated at
 every request, so past overlaps do not matter once drained) every pool that has received the fan-out's request
 received it while none of its own requests was unanswered: `published_has_keyspace` applies to it. -/
